@@ -114,5 +114,23 @@ pub fn revision_fill(plan: &MigrationPlan, baseline: &[TableDef]) -> Option<Migr
             }
         }
     }
+    // apply_default_as_fill_with (revision.rs): a defaulted column that becomes NOT NULL is filled with its default
+    for action in &mut plan.actions {
+        if let MigrationAction::ModifyColumnNullable {
+            table,
+            column,
+            nullable: false,
+            fill_with,
+        } = action
+            && fill_with.is_none()
+            && let Some(default) = baseline
+                .iter()
+                .find(|t| t.name == *table)
+                .and_then(|t| t.columns.iter().find(|c| c.name == *column))
+                .and_then(|c| c.default.as_ref())
+        {
+            *fill_with = Some(default.to_sql());
+        }
+    }
     Some(plan)
 }
